@@ -2,7 +2,9 @@ package rules
 
 import (
 	"fmt"
+	"go/token"
 	"go/types"
+	"os"
 	"strings"
 
 	"golang.org/x/tools/go/ssa"
@@ -175,11 +177,73 @@ func ruleMergeByName(c *core.Ctx, rule string, fn *ssa.Function, withMult bool) 
 		}
 		return sameElem(x, nameV, "Name", val, "Value")
 	}
+	// one new element enters the list: through Elements.Add, or through append(list, Element{name, value})
+	onAdd := func(x *absint.Exec, s *absint.State, at token.Pos, list, nameV, valV absint.Value) {
+		effects["add"]++
+		if s.Data["exists"] != "F" {
+			report("Add is reached with exists=%q: a name already present would be listed twice (%s)", s.Data["exists"], c.P.Pos(at))
+		}
+		if s.Data["eff"] == "1" {
+			report("two effects for one looked-up element (%s)", c.P.Pos(at))
+		}
+		s.SetData("eff", "1")
+		if s.Data["posmap"] != "" {
+			var cur absint.Value = list
+			if _, isPtr := list.(absint.Ptr); isPtr {
+				cur = x.Load(s, list, nil)
+			}
+			want := absint.NewTerm("len", cur).Key()
+			if t, ok := cur.(*absint.Term); ok && t.Op == "make" && len(t.Args) == 2 {
+				want = t.Args[1].Key() // the engine folds len(make(T, n)) to n
+			}
+			if s.Data["pos"] != want {
+				report("the position recorded for a new name is %s, not the length of the list before the Add (%s): later occurrences of the name accumulate into another element's slot (%s)", s.Data["pos"], want, c.P.Pos(at))
+			}
+		}
+		if nameV.Key() != s.Data["lookup"] {
+			report("the element added (%s) is not the one looked up (%s)", nameV.Key(), s.Data["lookup"])
+		}
+		if !wantDelta(x, nameV, valV) {
+			report("a new name is added with value %s, expected that element's own Value%s (%s)", valV.Key(), map[bool]string{true: " x the multiplier", false: ""}[withMult], c.P.Pos(at))
+		}
+	}
+	x.Hooks.Builtin = func(x *absint.Exec, s *absint.State, in *ssa.Call, name string, args []absint.Value) {
+		if name != "append" || len(args) != 2 || len(s.Frames) == 0 || s.Frames[len(s.Frames)-1].Fn != fn {
+			return
+		}
+		if !types.Identical(in.Type().Underlying(), elementsSlice(c)) {
+			return
+		}
+		// the appended operand: slice(&cell, …) holding one element
+		t, ok := args[1].(*absint.Term)
+		if !ok || t.Op != "slice" || len(t.Args) == 0 {
+			report("the list is extended by append with %s, not by one {name, value} element (%s)", args[1].Key(), c.P.Pos(in.Pos()))
+			return
+		}
+		p, ok := t.Args[0].(absint.Ptr)
+		if !ok {
+			return
+		}
+		var nameV, valV absint.Value
+		if st, ok := s.Heap[p.Loc+"[c:0]"].(*absint.Struct); ok && len(st.Fields) == 2 {
+			nameV, valV = st.Fields[0], st.Fields[1]
+		} else {
+			nameV, valV = s.Heap[p.Loc+"[c:0]·Name"], s.Heap[p.Loc+"[c:0]·Value"]
+		}
+		if nameV == nil || valV == nil {
+			report("the element appended to the list could not be read (%s)", c.P.Pos(in.Pos()))
+			return
+		}
+		onAdd(x, s, in.Pos(), args[0], nameV, valV)
+	}
 	x.Hooks.Call = func(x *absint.Exec, s *absint.State, site ssa.CallInstruction, callee *ssa.Function, fnv absint.Value, args []absint.Value) (absint.Value, bool) {
 		switch {
 		case isMethod(callee, core.LibPath, "Elements", "Index") && len(args) == 2:
 			return indexStub(x, s, site, args), true
 		case isMethod(callee, core.LibPath, "Elements", "Add") && len(args) == 3:
+			onAdd(x, s, site.Pos(), args[0], args[1], args[2])
+			return absint.Const{}, true
+		case false:
 			effects["add"]++
 			if s.Data["exists"] != "F" {
 				report("Add is reached with exists=%q: a name already present would be listed twice (%s)", s.Data["exists"], c.P.Pos(site.Pos()))
@@ -211,12 +275,30 @@ func ruleMergeByName(c *core.Ctx, rule string, fn *ssa.Function, withMult bool) 
 	}
 	x.Hooks.Store = func(x *absint.Exec, s *absint.State, in *ssa.Store, addr, val absint.Value) {
 		p, ok := addr.(absint.Ptr)
-		if !ok || !strings.HasPrefix(p.Loc, "L:") && !strings.HasPrefix(p.Loc, "A:r/") {
+		if !ok || !strings.HasPrefix(p.Loc, "L:") && !strings.HasPrefix(p.Loc, "A:") {
 			return
+		}
+		if top := s.Frames[len(s.Frames)-1]; len(s.Frames) > 1 && strings.HasPrefix(p.Loc, "A:"+top.Ctx+"/") {
+			return // a constructor (NewElement) initialising the value it has just allocated
 		}
 		if strings.HasPrefix(p.Loc, "A:") {
 			// the function's own fresh list (NewLogNodeFromElements builds one): only slot updates matter
 			if !strings.HasSuffix(p.Loc, "·Value") {
+				return
+			}
+		}
+		if !strings.HasSuffix(p.Loc, "·Value") && strings.HasPrefix(p.Loc, "L:") {
+			// storing back the receiver's own list, possibly grown by the appends checked above, is the write-back of
+			// a local copy of the slice header, not an alias of another list
+			base := val
+			for {
+				t, ok := base.(*absint.Term)
+				if !ok || t.Op != "append" || len(t.Args) == 0 {
+					break
+				}
+				base = t.Args[0]
+			}
+			if locOf(x, base) == p.Loc || ownListSSA(in.Val, in.Addr, map[ssa.Value]bool{}) {
 				return
 			}
 		}
@@ -370,12 +452,18 @@ func ruleElementsIndex(c *core.Ctx, rule string) {
 		if !b {
 			falses++
 			if tm.State.Data["eq"] != "" {
+				if os.Getenv("HRDEBUG") != "" {
+					fmt.Fprintf(os.Stderr, "Index bad(false): eq=%q when %s\n", tm.State.Data["eq"], x.Valuation(tm.State))
+				}
 				bad++
 			}
 			continue
 		}
 		trues++
 		if !strings.HasSuffix(tm.State.Data["eq"], "["+tm.Ret[0].Key()+"]·Name") {
+			if os.Getenv("HRDEBUG") != "" {
+				fmt.Fprintf(os.Stderr, "Index bad: eq=%q ret=%s\n", tm.State.Data["eq"], tm.Ret[0].Key())
+			}
 			bad++
 		}
 	}
@@ -384,4 +472,56 @@ func ruleElementsIndex(c *core.Ctx, rule string) {
 	} else {
 		c.Violate(rule, fname, "lookup", c.P.Pos(fn.Pos()), fmt.Sprintf("Index reports found=true on a path that did not establish el[i].Name == name for the returned i (true paths %d, false paths %d, bad %d)", trues, falses, bad), nil)
 	}
+}
+
+// elementsSlice: the underlying type of lib.Elements ([]Element).
+func elementsSlice(c *core.Ctx) types.Type {
+	if t := c.P.LookupType(core.LibPath, "Elements"); t != nil {
+		return t.Underlying()
+	}
+	return types.Typ[types.Invalid]
+}
+
+// ownListSSA: v is the list stored behind dst itself, possibly grown by
+// append — a load of dst, a local variable (or φ) that only ever holds such
+// values, or append(such a value, …). Storing it back to dst writes the
+// receiver's own list, not an alias of another one.
+func ownListSSA(v, dst ssa.Value, seen map[ssa.Value]bool) bool {
+	if seen[v] {
+		return true
+	}
+	seen[v] = true
+	switch x := v.(type) {
+	case *ssa.UnOp:
+		if x.Op != token.MUL {
+			return false
+		}
+		if x.X == dst {
+			return true
+		}
+		if a, ok := x.X.(*ssa.Alloc); ok {
+			n := 0
+			for _, r := range *a.Referrers() {
+				if st, ok := r.(*ssa.Store); ok && st.Addr == ssa.Value(a) {
+					n++
+					if !ownListSSA(st.Val, dst, seen) {
+						return false
+					}
+				}
+			}
+			return n > 0
+		}
+	case *ssa.Phi:
+		for _, e := range x.Edges {
+			if !ownListSSA(e, dst, seen) {
+				return false
+			}
+		}
+		return true
+	case *ssa.Call:
+		if b, ok := x.Call.Value.(*ssa.Builtin); ok && b.Name() == "append" && len(x.Call.Args) > 0 {
+			return ownListSSA(x.Call.Args[0], dst, seen)
+		}
+	}
+	return false
 }
